@@ -91,6 +91,21 @@ def graphql_error_from_nodes(
     )
 
 
+def _exception_message(exception: Exception) -> str:
+    """
+    Returns the message of an exception, even if the exception can't be
+    converted to a string.
+    :param exception: exception to get the message from
+    :type exception: Exception
+    :return: the message of the exception
+    :rtype: str
+    """
+    try:
+        return str(exception)
+    except Exception:  # pylint: disable=broad-except
+        return type(exception).__name__
+
+
 def located_error(
     original_error: Exception,
     nodes: List["Node"],
@@ -127,7 +142,7 @@ def located_error(
             exception
             if is_coercible_exception(exception)
             else graphql_error_from_nodes(
-                str(exception),
+                _exception_message(exception),
                 nodes=nodes,
                 path=path,
                 original_error=exception,
